@@ -38,6 +38,7 @@ class Ctx:
         self.suites: dict[str, dict] = {}
         self.exhaustive = False
         self.rules: list[str] = []
+        self.last_case: Any = None
 
     @property
     def quick(self) -> bool:
@@ -49,6 +50,7 @@ class Ctx:
     # ---- coverage accounting
     def seen(self, key: Any, nontrivial: bool = True, n: int = 1) -> None:
         self.evaluations += n
+        self.last_case = key
         h = jhash(key)
         self._distinct.add(h)
         if nontrivial:
